@@ -314,7 +314,7 @@ def label_case(ptypes, min_classes=2):
         m = draw(st.integers(min_classes, 6))
         ptype = draw(st.sampled_from([t for t in ptypes if t != 'float' or m == 2]))
         case = {'ds': draw(dataset_spec(min_n=2, max_n=300, min_card=2)), 'm': m, 'ptype': ptype,
-                'dec': draw(st.sampled_from(['tiefree', 'tiefree', 'linear', 'nonlinear'])),
+                'dec': draw(st.sampled_from(['tiefree', 'tiefree', 'tiefree-neg', 'linear', 'nonlinear'])),
                 'k': draw(st.sampled_from([2, 1, 0.5, 3])), 'perm_seed': draw(st.integers(0, 2**32 - 1))}
         if ptype != 'default':
             W = draw(st.sampled_from([w for w in WS if w >= m]))
@@ -363,6 +363,13 @@ def oracle_labels(case, rec, kind='C20/labels'):
     if case['dec'] == 'tiefree':
         kw['decision_function'] = tiefree
         dec = tiefree(X)
+    elif case['dec'] == 'tiefree-neg':
+        shift = int(tiefree(X).max()) + 3 + int(case['perm_seed'] % 50)
+
+        def tiefree_neg(x):          # integer-typed, tie-free and negative decision values (e.g. a cost or a negated count)
+            return tiefree(x) - shift
+        kw['decision_function'] = tiefree_neg
+        dec = tiefree_neg(X)
     elif case['dec'] == 'linear':
         kw['class_relation'] = 'linear'
         dec = np.sum(2 * X + 3, axis=1)
@@ -531,6 +538,7 @@ def downsample_case(draw):
     return {'ds': draw(dataset_spec(n=sum(counts), max_f=4)), 'counts': counts, 'label_seed': draw(st.integers(0, 2**32 - 1)),
             'n': req, 'seed': draw(st.integers(0, 2**31 - 1)), 'reshuffle': draw(st.booleans()),
             'id_col': draw(st.booleans()), 'y_list': draw(st.booleans()),
+            'label_values': draw(st.sampled_from(['0..m-1', '0..m-1', 'gap', 'offset', 'sparse'])),
             'np_seed': draw(st.integers(0, 2**32 - 1))}
 
 
@@ -538,8 +546,13 @@ def oracle_downsample(case, rec):
     kind = 'C20/downsample'
     X = build_dataset(case['ds'], kind, id_col=case['id_col'])
     y = labels_from_counts(case['counts'], case['label_seed'])
-    X0 = X.copy()
     lo, m, req = min(case['counts']), len(case['counts']), case['n']
+    # class labels need not be 0..m-1 (a class of the requested distribution may be empty, labels may come from elsewhere)
+    lv = case.get('label_values', '0..m-1')
+    values = (list(range(m)) if lv == '0..m-1' else [0] + list(range(2, m + 1)) if lv == 'gap'
+              else list(range(3, m + 3)) if lv == 'offset' else [0] + [5 * i + 4 for i in range(1, m)])
+    y = np.asarray(values)[y]
+    X0 = X.copy()
     yarg = y.tolist() if case['y_list'] else y
     cc = CC()
     np.random.seed(case['np_seed'])
@@ -560,13 +573,15 @@ def oracle_downsample(case, rec):
         raise Violation(f'down-sampled shapes {Xd.shape}, {yd.shape}; expected {k} rows for each of {m} classes')
     if not np.array_equal(X, X0):
         raise Violation('downsample_dataset modified its input array')
-    rows_by_class = {v: set(map(tuple, X0[y == v].tolist())) for v in range(m)}
-    distinguishable = any(rows_by_class[a] - rows_by_class[b] for a in range(m) for b in range(m) if a != b)
+    rows_by_class = {v: set(map(tuple, X0[y == v].tolist())) for v in values}
+    distinguishable = any(rows_by_class[a] - rows_by_class[b] for a in values for b in values if a != b)
     rec.nt(req is not None and distinguishable, key=case)
     rec.cls('n=None' if req is None else 'n==min-count' if req == lo else 'n<min-count',
-            'reshuffle' if case['reshuffle'] else 'ordered', 'id-col' if case['id_col'] else 'no-id-col')
+            'reshuffle' if case['reshuffle'] else 'ordered', 'id-col' if case['id_col'] else 'no-id-col', 'labels=' + lv)
     ydl = yd.tolist()
-    for v in range(m):
+    if not set(ydl) <= set(values):
+        raise Violation(f'down-sampled labels {sorted(set(ydl))} contain classes that do not exist in the data ({values})')
+    for v in values:
         sel = [i for i, lab in enumerate(ydl) if lab == v]
         if len(sel) != k:
             raise Violation(f'class {v}: {len(sel)} rows after down-sampling to n={k} (labels {sorted(set(ydl))})')
